@@ -720,6 +720,18 @@ class SVG:
         """
         Removes groups where possible, applies transforms, applies clip paths.
         """
+        # opacity, clip-path and transform on the root apply to the document as a group and
+        # are not passed down by value: hand them to a group that is simplified like any other
+        root_group_attrib = {
+            k: self.svg_root.attrib.pop(k)
+            for k in sorted(_ATTRIB_W_CUSTOM_INHERITANCE)
+            if k in self.svg_root.attrib
+        }
+        if root_group_attrib:
+            root_group = etree.Element(f"{{{svgns()}}}g", root_group_attrib)
+            root_group.extend(list(self.svg_root))
+            self.svg_root.append(root_group)
+
         # Reversed: we want leaves first
         to_process = reversed(tuple(c for c in self.breadth_first()))
 
